@@ -91,6 +91,7 @@ StateDiffs(e, o) ==
 
 \* kinds of actions the hub specification predicts
 Modelled(a) == a.k \in {"Begin", "End", "Send", "BulkSend", "Cancel", "ReqBatch", "Claim", "Confirm", "SetKeys", "Tx"}
+               \/ (a.k = "Gov" /\ a.p = "ColdStorage")
 
 \* the pre-state handed to Step: for "End" the staking module's validator update has already happened
 PreFor(a, pre, post) == IF a.k = "End" THEN [pre EXCEPT !.stk = post.stk, !.tot = post.tot] ELSE pre
@@ -111,11 +112,13 @@ FailedIsNoop(pre, a, res, post) ==
     ELSE IF StateDiffs(pre, post) # {} THEN {<<"C11:FailedIsNoop", "">>} ELSE {}
 
 \* C01 needs the external world (custody): only behaviours of families that script it (Ext* lines) qualify
-WithWorld(fam) == fam \in {"econ", "bulk", "fees", "evm", "minter"}
+WithWorld(fam) == fam \in {"econ", "bulk", "fees", "evm", "minter", "gov"}
 ExtAct(a) == a.k \in {"ExtDeposit", "ExtExec", "ExtMine"}
 \* an ExtExec line must pay out exactly the batch the hub holds (otherwise the script is inconsistent)
 ExecConsistent(xw, pre, a) ==
-    a.k # "ExtExec" \/ \E b \in pre.ch[a.chain].bat \cup xw[a.chain].pub : b.tok = a.ev.tok /\ b.n = a.ev.bn /\ a.paid = SumOver(b.txs, LAMBDA tr : tr.a)
+    a.k # "ExtExec" \/ \E b \in pre.ch[a.chain].bat \cup xw[a.chain].pub :
+                            /\ b.tok = a.ev.tok /\ b.n = a.ev.bn /\ a.paid = SumOver(b.txs, LAMBDA tr : tr.a)
+                            /\ (IF "cold" \in DOMAIN a THEN a.cold ELSE 0) = SumOver(b.txs, LAMBDA tr : IF IsColdTransfer(a.chain, tr) THEN tr.a ELSE 0)
 
 \* C16  the relayer-facing queries answer exactly the recorded confirmations, each attributed to the external
 \* address its validator had registered when it confirmed (gc: chain -> tx -> validator -> that address), and
@@ -299,7 +302,7 @@ MinterInStep(post) ==
 PropChecks(g, xw, fam, pre, a, res, post) ==
        FailedIsNoop(pre, a, res, post)
   \cup (IF Modelled(a) THEN StepChecks(g, pre, a, res, post) \cup C01Step(pre, a, post) ELSE C05Checks(a, res))
-  \cup (IF WithWorld(fam) /\ ~Solvent(post, xw) THEN {<<"C01:Solvency", "">>} ELSE {})
+  \cup (IF WithWorld(fam) /\ ~SolventG(post, xw, IF Modelled(a) THEN GhostNext(g, pre, a, res, post) ELSE g) THEN {<<"C01:Solvency", "">>} ELSE {})
   \cup EvmChecks(g, pre, a, res, post) \cup EvmInStep(post) \cup MinterInStep(post)
   \cup (IF WithWorld(fam) /\ ~ExecConsistent(xw, pre, a) THEN {<<"infra:ExecInconsistent", "">>} ELSE {})
 
